@@ -158,13 +158,29 @@ Qed.
 
 (* ---------------------------------------------------- decision procedure *)
 
+(* duplicate-free lists of constants *)
+Fixpoint dedup (l : list const) : list const :=
+  match l with
+  | [] => []
+  | x :: r => if existsb (const_eqb x) r then dedup r else x :: dedup r
+  end.
+
+Lemma dedup_In l x : In x (dedup l) <-> In x l.
+Proof.
+  induction l as [|y r IH]; cbn [dedup]; [tauto|].
+  destruct (existsb (const_eqb y) r) eqn:E.
+  - rewrite IH. split; [intros HI; now right|]. intros [E1|HI]; auto. subst x.
+    apply existsb_exists in E. destruct E as (z & Hz & E). apply const_eqb_eq in E. now subst.
+  - cbn [In]. rewrite IH. tauto.
+Qed.
+
 (* all terms of the graph *)
 Definition gnodes (G : graph) : list const :=
-  flat_map (fun tr : triple => let '(a, _, b) := tr in [a; b]) G.
+  dedup (flat_map (fun tr : triple => let '(a, _, b) := tr in [a; b]) G).
 
 Lemma gnodes_spec G a : In a (gnodes G) <-> gnode G a.
 Proof.
-  unfold gnodes, gnode. rewrite in_flat_map. split.
+  unfold gnodes, gnode. rewrite dedup_In, in_flat_map. split.
   - intros ([[x p] y] & Hx & Ha). cbn in Ha. destruct Ha as [<-|[<-|[]]].
     + exists p, y. now left.
     + exists p, x. now right.
@@ -404,6 +420,59 @@ Proof.
   - intros HS. destruct (solveb_sound G q [] HS) as (s & _ & S). eauto.
   - intros (s & S). apply (solveb_complete G q [] s); auto. intros v c. discriminate.
 Qed.
+
+(* The same search with every path evaluated once, before the search starts
+   (this is the version the harness runs). *)
+Definition ctp : Type := (term * list (const * const) * term)%type.
+
+Definition compile_tp (G : graph) (t : tpat) : ctp :=
+  let '(x, pa, y) := t in (x, pairs G pa, y).
+
+Definition compile (G : graph) (p : pat) : list ctp :=
+  match p with
+  | Tp t => [compile_tp G t]
+  | Alt ts => map (compile_tp G) ts
+  end.
+
+Definition ext_ctp (r : env) (t : ctp) : list env :=
+  let '(x, ps, y) := t in
+  flat_map (fun ab : const * const =>
+    match bind r x (fst ab) with
+    | Some r1 => match bind r1 y (snd ab) with Some r2 => [r2] | None => [] end
+    | None => []
+    end) ps.
+
+Fixpoint solvec (q : list (list ctp)) (r : env) : bool :=
+  match q with
+  | [] => true
+  | c :: q' => existsb (solvec q') (flat_map (ext_ctp r) c)
+  end.
+
+Definition matchc (G : graph) (q : list pat) : bool := solvec (map (compile G) q) [].
+
+Lemma ext_ctp_compile G r t : ext_ctp r (compile_tp G t) = ext_tp G r t.
+Proof. destruct t as [[x pa] y]. reflexivity. Qed.
+
+Lemma ext_compile G r p : flat_map (ext_ctp r) (compile G p) = ext_pat G r p.
+Proof.
+  destruct p as [t|ts]; cbn [compile ext_pat flat_map].
+  - rewrite app_nil_r. apply ext_ctp_compile.
+  - induction ts as [|t ts IH]; cbn [map flat_map]; auto.
+    now rewrite IH, ext_ctp_compile.
+Qed.
+
+Lemma existsb_ext_in {A} (f g : A -> bool) l :
+  (forall x, f x = g x) -> existsb f l = existsb g l.
+Proof. intros E. induction l as [|x l IH]; cbn; auto. now rewrite E, IH. Qed.
+
+Lemma solvec_solveb G q : forall r, solvec (map (compile G) q) r = solveb G q r.
+Proof.
+  induction q as [|p q IH]; intros r; cbn [map solvec solveb]; auto.
+  rewrite ext_compile. now apply existsb_ext_in.
+Qed.
+
+Theorem matchc_spec G q : matchc G q = true <-> matches G q.
+Proof. unfold matchc. rewrite solvec_solveb. apply matchb_spec. Qed.
 
 (* predicates a query tests *)
 Definition path_preds (pa : path) : list pred :=
